@@ -44,24 +44,34 @@ func ConcurrentRetrieveWithCallback(ctx context.Context, tasks []*RetrieveTask) 
 		wg.Add(1)
 		go func(ctx context.Context, t *RetrieveTask) {
 			ctx = ctxWithRetrieverRunInfo(ctx, t.Retriever)
+			// a retriever that fires its own callbacks reports the unit itself, as it does when it is a graph node
+			report := !components.IsCallbacksEnabled(t.Retriever)
 
 			defer func() {
 				if e := recover(); e != nil {
 					t.Err = fmt.Errorf("retrieve panic, query: %s, error: %v", t.Query, e)
-					ctx = callbacks.OnError(ctx, t.Err)
+					if report {
+						ctx = callbacks.OnError(ctx, t.Err)
+					}
 				}
 				wg.Done()
 			}()
 
-			ctx = callbacks.OnStart(ctx, t.Query)
+			if report {
+				ctx = callbacks.OnStart(ctx, t.Query)
+			}
 			docs, err := t.Retriever.Retrieve(ctx, t.Query, t.RetrieveOptions...)
 			if err != nil {
-				callbacks.OnError(ctx, err)
+				if report {
+					callbacks.OnError(ctx, err)
+				}
 				t.Err = err
 				return
 			}
 
-			callbacks.OnEnd(ctx, docs)
+			if report {
+				callbacks.OnEnd(ctx, docs)
+			}
 			t.Result = docs
 		}(ctx, tasks[i])
 	}
